@@ -1039,6 +1039,43 @@ fn detached(children: Vec<NodeOrToken<GreenNode, GreenToken>>) -> Vec<SyntaxElem
     tmp.children_with_tokens().collect()
 }
 
+/// The tokens of a version: `IDENT`, or `IDENT COLON IDENT` when it has an epoch (what the lexer
+/// makes of the same text).
+fn version_tokens(builder: &mut GreenNodeBuilder, version: &Version) {
+    let text = version.to_string();
+    match text.split_once(':') {
+        Some((epoch, rest)) if version.epoch.is_some() => {
+            builder.token(IDENT.into(), epoch);
+            builder.token(COLON.into(), ":");
+            builder.token(IDENT.into(), rest);
+        }
+        _ => builder.token(IDENT.into(), text.as_str()),
+    }
+}
+
+/// `(op version)` as a VERSION node, as the parser builds it
+fn version_node(builder: &mut GreenNodeBuilder, vc: &VersionConstraint, version: &Version) {
+    builder.start_node(VERSION.into());
+    builder.token(L_PARENS.into(), "(");
+    builder.start_node(CONSTRAINT.into());
+    for c in vc.to_string().chars() {
+        builder.token(
+            match c {
+                '>' => R_ANGLE.into(),
+                '<' => L_ANGLE.into(),
+                '=' => EQUAL.into(),
+                _ => unreachable!(),
+            },
+            c.to_string().as_str(),
+        );
+    }
+    builder.finish_node();
+    builder.token(WHITESPACE.into(), " ");
+    version_tokens(builder, version);
+    builder.token(R_PARENS.into(), ")");
+    builder.finish_node();
+}
+
 impl From<Vec<Relation>> for Entry {
     fn from(relations: Vec<Relation>) -> Self {
         let mut builder = GreenNodeBuilder::new();
@@ -1082,29 +1119,7 @@ impl Relation {
         builder.token(IDENT.into(), name);
         if let Some((vc, version)) = version_constraint {
             builder.token(WHITESPACE.into(), " ");
-            builder.start_node(SyntaxKind::VERSION.into());
-            builder.token(L_PARENS.into(), "(");
-            builder.start_node(SyntaxKind::CONSTRAINT.into());
-            for c in vc.to_string().chars() {
-                builder.token(
-                    match c {
-                        '>' => R_ANGLE.into(),
-                        '<' => L_ANGLE.into(),
-                        '=' => EQUAL.into(),
-                        _ => unreachable!(),
-                    },
-                    c.to_string().as_str(),
-                );
-            }
-            builder.finish_node();
-
-            builder.token(WHITESPACE.into(), " ");
-
-            builder.token(IDENT.into(), version.to_string().as_str());
-
-            builder.token(R_PARENS.into(), ")");
-
-            builder.finish_node();
+            version_node(&mut builder, &vc, &version);
         }
 
         builder.finish_node();
@@ -1343,66 +1358,30 @@ impl Relation {
         let current_version = self.0.children().find(|n| n.kind() == VERSION);
         if let Some((vc, version)) = version_constraint {
             let mut builder = GreenNodeBuilder::new();
-            builder.start_node(VERSION.into());
-            builder.token(L_PARENS.into(), "(");
-            builder.start_node(CONSTRAINT.into());
-            match vc {
-                VersionConstraint::GreaterThanEqual => {
-                    builder.token(R_ANGLE.into(), ">");
-                    builder.token(EQUAL.into(), "=");
-                }
-                VersionConstraint::LessThanEqual => {
-                    builder.token(L_ANGLE.into(), "<");
-                    builder.token(EQUAL.into(), "=");
-                }
-                VersionConstraint::Equal => {
-                    builder.token(EQUAL.into(), "=");
-                }
-                VersionConstraint::GreaterThan => {
-                    builder.token(R_ANGLE.into(), ">");
-                }
-                VersionConstraint::LessThan => {
-                    builder.token(L_ANGLE.into(), "<");
-                }
-            }
-            builder.finish_node(); // CONSTRAINT
-            builder.token(WHITESPACE.into(), " ");
-            builder.token(IDENT.into(), version.to_string().as_str());
-            builder.token(R_PARENS.into(), ")");
-            builder.finish_node(); // VERSION
+            version_node(&mut builder, &vc, &version);
+            let version_green = builder.finish();
 
             if let Some(current_version) = current_version {
                 self.0.splice_children(
                     current_version.index()..current_version.index() + 1,
-                    vec![SyntaxNode::new_root_mut(builder.finish()).into()],
+                    vec![SyntaxNode::new_root_mut(version_green).into()],
                 );
             } else {
-                let name_node = self.0.children_with_tokens().find(|n| n.kind() == IDENT);
-                let idx = if let Some(name_node) = name_node {
-                    name_node.index() + 1
-                } else {
-                    0
-                };
-                let new_children = vec![
-                    GreenToken::new(WHITESPACE.into(), " ").into(),
-                    builder.finish().into(),
-                ];
-                let new_root = SyntaxNode::new_root_mut(
-                    self.0.green().splice_children(idx..idx, new_children),
+                // after the architecture qualifier if there is one, else after the name
+                let anchor = self
+                    .0
+                    .children_with_tokens()
+                    .find(|n| n.kind() == ARCHQUAL)
+                    .or_else(|| self.0.children_with_tokens().find(|n| n.kind() == IDENT));
+                let idx = anchor.map_or(0, |n| n.index() + 1);
+                // edit the relation in place: it stays where it is in its entry
+                self.0.splice_children(
+                    idx..idx,
+                    detached(vec![
+                        GreenToken::new(WHITESPACE.into(), " ").into(),
+                        version_green.into(),
+                    ]),
                 );
-                if let Some(parent) = self.0.parent() {
-                    parent
-                        .splice_children(self.0.index()..self.0.index() + 1, vec![new_root.into()]);
-                    self.0 = parent
-                        .children_with_tokens()
-                        .nth(self.0.index())
-                        .unwrap()
-                        .clone()
-                        .into_node()
-                        .unwrap();
-                } else {
-                    self.0 = new_root;
-                }
             }
         } else if let Some(current_version) = current_version {
             // Remove any whitespace before the version token
